@@ -325,38 +325,65 @@ def _features(rec, blocks):
 
 
 # ------------------------------------------------------------------ the oracle of the property
+def own_total(c, x, spec):
+    """- c_a . x_a over the variables of one asset; `spec` = list of (lo, hi) ranges and / or index arrays"""
+    tot = 0.0
+    for part in spec:
+        if isinstance(part, tuple):
+            lo, hi = part
+            tot += -float(np.dot(c[lo:hi], x[lo:hi]))
+        else:
+            idx = np.asarray(part, dtype=np.int64)
+            tot += -float(np.dot(c[idx], x[idx]))
+    return tot
+
+
 def orc_value_accounting(rec, tag='mono', offsets=None):
-    """C04: reported value = sum of the DCF table; per asset: sum of its column = - c_a . x_a.
+    """C04: reported value = sum of the DCF table = - c . x; per asset: sum of its column = - c_a . x_a.
 
     The sum of the table is the one a user gets from `out['DCF'].sum().sum()`: pandas skips empty (NaN) cells.  An empty cell
     outside an asset's own start/end therefore does no harm by itself - but whatever cash flow the asset's variables have
     there is then missing in the sum, which is what the comparisons below see.  Inside an asset's own window every cell
-    has to be a number: an empty or infinite cell there is reported (the table does not say what the asset's cash flow is)."""
+    has to be a number: an empty or infinite cell there is reported (the table does not say what the asset's cash flow is).
+
+    With rec['snap'] (comp/c04read.Snap: copy of x, value and cost vector taken when `optimize` returned, before any read-out)
+    x, c and the value are those of the snapshot - the optimal values the statement speaks about -, and the value the result
+    object carries now has to be the returned one still.  Without a snapshot the result object is taken as it is."""
     out, res, op = rec['out'], rec['res'], rec['op']
+    snap = rec.get('snap')
+    x = snap.x if snap is not None else np.asarray(res.x, dtype=float)
+    c = snap.c if snap is not None else np.asarray(op.c, dtype=float)
+    value = snap.value if snap is not None else float(res.value)
     viol = []
     dcf = out['DCF']
     vals = np.asarray(dcf.values, dtype=float)
     total = float(dcf.sum().sum())
     fin = np.where(np.isfinite(vals), vals, 0.0)
-    scale = max(1.0, abs(float(res.value)), float(np.abs(fin).sum()))
+    scale = max(1.0, abs(value), float(np.abs(fin).sum()))
     tol = 1e-6 * scale
     n_empty = int((~np.isfinite(vals)).sum())
     note = (' (%d cells of the table are empty / not finite)' % n_empty) if n_empty else ''
-    if not abs(total - res.value) <= tol:
-        viol.append({'oracle': 'value_accounting', 'detail': '%s: reported value %.8g but DCF table sums to %.8g%s' % (tag, res.value, total, note),
+    if not abs(total - value) <= tol:
+        viol.append({'oracle': 'value_accounting', 'detail': '%s: reported value %.8g but DCF table sums to %.8g%s' % (tag, value, total, note),
                      'facts': {'mode': tag, 'what': 'total', 'empty_cells': n_empty}})
     sval = float(out['summary'].loc['value', 'Values'])
-    if not abs(sval - res.value) <= tol:
-        viol.append({'oracle': 'value_accounting', 'detail': '%s: summary value %.8g vs result value %.8g' % (tag, sval, res.value),
+    if not abs(sval - value) <= tol:
+        viol.append({'oracle': 'value_accounting', 'detail': '%s: summary value %.8g vs result value %.8g' % (tag, sval, value),
                      'facts': {'mode': tag, 'what': 'summary'}})
+    if snap is not None:
+        if not abs(float(res.value) - value) <= tol:
+            viol.append({'oracle': 'value_accounting', 'detail': '%s: the result object now carries value %.8g, optimize returned %.8g' % (tag, float(res.value), value),
+                         'facts': {'mode': tag, 'what': 'result-value'}})
+        cx = -float(np.dot(c, x)) if len(c) == len(x) else float('nan')
+        if not abs(cx - value) <= tol:
+            viol.append({'oracle': 'value_accounting', 'detail': '%s: reported value %.8g but minus cost times the returned solution is %.8g' % (tag, value, cx),
+                         'facts': {'mode': tag, 'what': 'minus-cx'}})
     tg = rec.get('tg')
     tz = getattr(tg, 'tz', None)
     for a in rec['portf'].assets:
         col = np.asarray(dcf[a.name].values, dtype=float)
         if offsets:
-            own = 0.0
-            for lo, hi in offsets[a.name]:
-                own += -float(np.dot(op.c[lo:hi], res.x[lo:hi]))
+            own = own_total(c, x, offsets[a.name])
             got = float(dcf[a.name].sum())
             if not abs(own - got) <= tol:
                 viol.append({'oracle': 'value_accounting', 'detail': '%s: asset %s: DCF total %.8g but minus cost of its own variables is %.8g%s' % (
